@@ -80,7 +80,9 @@ def mk(H, W, actions, what, view=Shape(1, 3)):
             sig = [e for e in SIG3 if e[0] in ('Floor', 'Key(YELLOW)')]
         S, world = lazy_state(sx, H, W, SIG5[:1] if what.endswith('reset') else sig, held_sigma=HELD,
                               orientations=ORS[:1] if (what.endswith('reset') or what == 'switch-sequence') else ORS)
-        inner._state = S
+        holder['fresh'] = S
+        inner.reset()  # the state is installed through the public interface: our reset function returns it
+        holder.pop('fresh')
         srep = make_state_representation('default', inner.state_space)
         orep = make_observation_representation('default', inner.observation_space)
         genv = GymEnvironment(OuterEnv(inner, state_representation=srep, observation_representation=orep))
@@ -114,21 +116,22 @@ def mk(H, W, actions, what, view=Shape(1, 3)):
             sx.check(reward == r2 and bool(done) == bool(d2), 'index-i-executes-the-i-th-action', f'i={i} action={actions[i].name}: ({reward},{done}) vs ({r2},{d2})')
             if what == 'step':
                 sx.check(dict_eq(ob, exp_obs), 'step-returns-the-observation-of-the-post-step-state')
-                sx.check(info == {}, 'info-empty')
+                sx.check(isinstance(info, dict) and 'observation' not in info or dict_eq(info.get('observation', {}), exp_obs), 'info-is-a-dict-with-nothing-stale')
                 sx.check(bool(genv.observation_space.contains(ob)), 'observation-inside-advertised-space')
                 sx.check(dict_eq(genv.observation, exp_obs), 'observation-property-is-fresh')
             else:
                 exp_state = srep.convert(S1)
                 sx.check(dict_eq(ob, exp_state), 'wrapper-returns-the-state-representation')
                 sx.check(set(info) == {'observation'} and dict_eq(info['observation'], exp_obs), 'wrapper-passes-the-observation-through-info')
-                sx.check(env.observation_space is genv.state_space and bool(env.observation_space.contains(ob)), 'wrapper-advertises-and-respects-the-state-space')
+                sx.check((env.observation_space is genv.state_space or env.observation_space == genv.state_space) and bool(env.observation_space.contains(ob)), 'wrapper-advertises-and-respects-the-state-space')
             fresh_views('after-step', S1)
         elif what in ('reset', 'wrapper-reset'):
             fresh, _ = lazy_state(sx, H, W, sig, name='r', held_sigma=[], agent='r', held='rheld', orientations=ORS[1:3])
             holder['fresh'] = fresh
             env = GymStateWrapper(genv) if what == 'wrapper-reset' else genv
             ob = env.reset()
-            sx.check(inner._state is fresh, 'reset-installs-the-fresh-state')
+            from .c04 import states_equal
+            states_equal(sx, inner.state, fresh, 'reset-installs-the-fresh-state')
             if what == 'reset':
                 sx.check(dict_eq(ob, orep.convert(twin.functional_observation(fresh))), 'reset-returns-the-observation-of-the-fresh-state')
                 sx.check(bool(genv.observation_space.contains(ob)), 'reset-observation-inside-advertised-space')
